@@ -28,7 +28,8 @@ RULE = (
     "One evaluation = one load_one/load_many call (generator fully consumed, closed early or dropped) on a file "
     "whose bytes were produced by a writer (corpus file = foreign QC program, or iodata's own dump on SimDisk) and "
     "then passed through the crash/storage fault model. Enumerated: every line-boundary crash prefix of every "
-    "corpus file (thorough; seeded 1-in-N sample in quick). Seeded: byte/block/raw-write-boundary cuts, torn tails, "
+    "corpus file up to 6000 lines (189 of 194 loadable files; 2000 seeded cut points for each of the five larger "
+    "ones) in thorough; seeded 1-in-N sample in quick. Seeded: byte/block/raw-write-boundary cuts, torn tails, "
     "lost/duplicated/swapped blocks and lines, bit flips, character substitutions, numeric-field overwrites incl. "
     "count inflation, misnamed files, 1-3 faults per run. Non-trivial = the faulted bytes differ from the intact "
     "file; distinct = (source file, api, sha of faulted bytes)."
@@ -432,7 +433,11 @@ def plan(tier, seed, args):
             if s["file"] in SLOW:
                 cuts = sorted(set(rng.sample(range(s["nlines"] + 1), 150)))
             elif tier == "thorough":
-                cuts = list(range(s["nlines"] + 1))
+                if s["nlines"] <= 6000:
+                    cuts = list(range(s["nlines"] + 1))
+                else:
+                    # the five largest files (11k..35k lines, every prefix load is O(size)): 2000 seeded cut points each
+                    cuts = sorted(set(rng.sample(range(s["nlines"] + 1), 2000)) | {0, s["nlines"]})
             else:
                 # quick: all cuts of small files, seeded sample of the larger ones
                 k = max(8, int(target * (s["nlines"] + 1) / (2 * total_lines)))
@@ -445,7 +450,7 @@ def plan(tier, seed, args):
     if args.only == "enum":
         return tasks
     # (b) seeded storage-fault runs
-    n = args.runs or (420 if tier == "quick" else 6000)
+    n = args.runs or (420 if tier == "quick" else 3000)
     for i in range(n):
         tasks.append({"run": run, "seed": seed, "tier": tier, "mode": "seeded", "n": 16 if tier == "quick" else 24})
         run += 1
